@@ -1095,23 +1095,41 @@ def run(check):
     tier = check.tier
     check.rule = ('generated signatures (1-4 members per class, depth <= 3, primitive / object / Array(T) / '
                   'max_occurs>1 members, classes reused in several members), conformant sparse values (array lengths '
-                  '0-13, sparse or contiguous increasing indexes), every pair permutation for <= 4 distinct keys and '
-                  'seeded permutations above, 6 hier_delim choices, strict_arrays on/off, validator None/soft, '
-                  'percent-encoding variants; plus a malformed-key stream for the model correspondence; a case is '
-                  'distinct by (entry point, configuration, signature, query string)')
+                  '0-13, sparse or contiguous increasing indexes, primitive arrays as repeated or indexed keys), every '
+                  'pair permutation for <= 4 distinct keys and seeded permutations above, 6 hier_delim choices, '
+                  'strict_arrays on/off, validator None/soft, percent-encoding variants; plus a malformed-key stream '
+                  'for the model correspondence; a case is distinct by (entry point, configuration, signature, query '
+                  'string)')
     check.trusted = list(lib.COMMON_TRUSTED) + [
-        'modelled, not verified: Python re (RE_HTTP_ARRAY_INDEX sub/findall/split), sorted() stability, dict insertion '
-        'order, urllib.parse.unquote on ASCII escapes, setattr/getattr on ComplexModel instances',
+        'proved (Props/C03.v, closed under the global context): index order for every arrival order (s2cmi_rank); '
+        'request fidelity for every covered signature, conformant value and permutation of the pairs, both '
+        'strict_arrays settings (request_fidelity, get_fidelity with qs_roundtrip); the converse (flatten_roundtrip); '
+        'the response headers/body (response_fidelity); refutations for the pinned sort and for unspellable values',
+        'modelled, not verified: Python re on the one pattern RE_HTTP_ARRAY_INDEX (sub/findall/split as a hand-written '
+        'scanner: tied by the key_regex correspondence, the pattern literal by C03_source_tie), sorted() stability and '
+        'list comparison, dict insertion order, urllib.parse.unquote on ASCII escapes, setattr/getattr on '
+        'ComplexModel instances',
+        'read from the source on every run (harness/translate/flatkeys.py -> Gen/FlatKeys.v) and proved equal to the '
+        'model (C03_source_tie): _s2cmi statement by statement, the regex literal, the strict_arrays comparisons, the '
+        "'empty' marker, the index format, the separators of _parse_qs; compared by the source_flags correspondence: "
+        'the sort key of the main loop and the visited-set of get_simple_type_info_with_prot',
         'primitive leaves are kept as text in the model: Unicode and canonical-decimal Integer members only (leaf codecs are C08)',
         'idxmap[id(list)] is modelled as a component of the array value (one map per live list object)',
+        'the Python twins of Spec.spell / Spec.compact_fields / Spec.typed_obj used by the direct oracle are compared '
+        'with the Coq definitions on every run (spec_tie, flatten correspondences), together with wf_sig and conf_fields '
+        'of every generated conformant case: the theorems apply to the generated cases',
     ]
     check.assumptions = [
-        'non-recursive signatures (no self-referencing classes); member names contain neither the delimiter nor brackets',
-        'the soft validator is exercised (no declared constraints: its checks must pass on conformant input) but not modelled',
+        'theorem hypotheses (wf_sig): hier_delim and member names contain no "[", member names are distinct per class, '
+        'no two members have the same flat key; signatures are non-recursive (a finite type tree)',
+        'conformant values (conf_fields): labels of an array are increasing and >= 0 (exactly 0..n-1 under strict_arrays), '
+        'a primitive array that is sent is non-empty, an object that is sent has at least one member sent',
+        'the soft validator is exercised by the correspondence and the oracle (no declared constraints: its checks must '
+        'pass on conformant input) but not modelled: the theorems are about validator=None',
         'percent escapes >= 0x80 (UTF-8) are outside the Coq model of unquote; they are covered by the direct oracle only',
         'POST/form bodies need werkzeug, which is not installed: that branch of decompose_incoming_envelope is unexercised',
-        'equality notion: an empty primitive array and an object with no non-None leaf below it cannot be spelled in the '
-        'flat notation and are identified with None; an empty array of objects is spelled key=empty and is distinguished',
+        'response_fidelity covers header classes of primitive members and arrays of primitives; the body is the chunks '
+        'to_bytes_iterable wrote (the text/bytes of a leaf is C08); the transport own headers (Content-Type) are taken as given',
     ]
     check.check_sources()
     check.regen(['flatkeys'])
